@@ -449,4 +449,17 @@ def prepareMarkupFull (C : Codecs) (m : Markup) (fromEncoding documentDeclared :
 def prepareMarkup (C : Codecs) (m : Markup) (fromEncoding : Option Name) (exclude : List Name) : Prepared :=
   prepareMarkupFull C m fromEncoding none exclude
 
+/-- `from_encoding = from_encoding or deprecated_argument("fromEncoding", "from_encoding")`
+    (bs4/__init__.py:334-336): the deprecated keyword is consulted only when `from_encoding` is falsy
+    (None or ""). -/
+def effectiveFromEncoding (fromEncoding fromEncodingOld : Option Name) : Option Name :=
+  match fromEncoding with
+  | some e => if e.isEmpty then fromEncodingOld else some e
+  | none => fromEncodingOld
+
+/-- `BeautifulSoup(markup, "html.parser", from_encoding=…, fromEncoding=…, exclude_encodings=…)` up to the
+    feed (bs4/__init__.py:334-342, 462-469). -/
+def constructorPrepare (C : Codecs) (m : Markup) (fromEncoding fromEncodingOld : Option Name) (exclude : List Name) : Prepared :=
+  prepareMarkup C m (effectiveFromEncoding fromEncoding fromEncodingOld) exclude
+
 end BS.EncodingIn
